@@ -517,10 +517,10 @@ Lemma T1_zero w tm K d s co wi : eqR (T1 R r0 r1 radd rmul w tm K d s co wi zero
 Proof. intro i. unfold T1, of1. apply taps_xzero. intro v. unfold padl, clip, as1. destruct (_ <? _)%Z; reflexivity. Qed.
 Lemma T1_resp w tm K d s co wi : respects SR eqR (T1 R r0 r1 radd rmul w tm K d s co wi).
 Proof. intros sg sg' H i. unfold T1, of1. apply taps_xext. intro v. unfold padl, clip, as1. destruct (_ <? _)%Z; [reflexivity|apply H]. Qed.
-Lemma T2_zero w kh kw d s ph pw co wi : eqR (T2 R r0 radd rmul w kh kw d s ph pw co wi zeroR) zeroR.
-Proof. intro i. unfold T2, of2. apply (PC.taps2_zero R r0 radd rmul Hadd0 Hm0r). intros a b. reflexivity. Qed.
-Lemma T2_resp w kh kw d s ph pw co wi : respects SR eqR (T2 R r0 radd rmul w kh kw d s ph pw co wi).
-Proof. intros sg sg' H i. unfold T2, of2. apply taps2_xext. intros a b. unfold as2. apply H. Qed.
+Lemma T2_zero w kh kw d s ph pw hin win co wi : eqR (T2 R r0 radd rmul w kh kw d s ph pw hin win co wi zeroR) zeroR.
+Proof. intro i. unfold T2, of2. apply (PC.taps2_zero R r0 radd rmul Hadd0 Hm0r). intros a b. unfold clip2. destruct (_ && _)%bool; reflexivity. Qed.
+Lemma T2_resp w kh kw d s ph pw hin win co wi : respects SR eqR (T2 R r0 radd rmul w kh kw d s ph pw hin win co wi).
+Proof. intros sg sg' H i. unfold T2, of2. apply taps2_xext. intros a b. unfold clip2, as2. destruct (_ && _)%bool; [apply H|reflexivity]. Qed.
 Lemma T0_zero w co ci : eqR (T0 R r0 rmul w co ci zeroR) zeroR.
 Proof. intro i. unfold T0, of0, as0. apply Hm0r. Qed.
 Lemma T0_resp w co ci : respects SR eqR (T0 R r0 rmul w co ci).
@@ -534,7 +534,7 @@ Proof. destruct nd as [c|src l m|src f|src mult f|a b|srcs]; try reflexivity. de
 Lemma cwf_node_wf n al nd : cwf_node R r0 n al nd -> wf_node SR eqR zeroR n al (node_of R r0 r1 radd rmul nd).
 Proof.
   destruct nd as [c|src l m|src f|src mult f|a b|srcs]; cbn; auto.
-  intros [Hs Hw]. destruct l as [fold dw w b bn cin K d s tm K' sp|fold dw w b bn cin kh kw d s ph pw|fold w b bn cin]; cbn in Hw |- *.
+  intros [Hs Hw]. destruct l as [fold dw w b bn cin K d s tm K' sp|fold dw w b bn cin kh kw d s ph pw hin win|fold w b bn cin]; cbn in Hw |- *.
   - destruct Hw as (_ & _ & _ & _ & _ & Hmin). destruct dw; cbn.
     + repeat split; auto using T1_resp, postbn_resp. all: try (intro; apply T1_resp).
     + repeat split; auto using T1_zero, T1_resp, postbn_resp.
@@ -576,19 +576,19 @@ Proof.
     + rewrite Hm0r. reflexivity.
 Qed.
 
-Lemma pit2_spec (fold dw : bool) (w : w4 R) (b : option (list R)) (bn : option (list R * list R)) cin kh kw d s ph pw (m : list bool) (xs : list SR) co :
+Lemma pit2_spec (fold dw : bool) (w : w4 R) (b : option (list R)) (bn : option (list R * list R)) cin kh kw d s ph pw hin win (m : list bool) (xs : list SR) co :
   length m = length w -> PC.bias_ok R b (length m) ->
   eqR (gateR (nth co m false) (pbn (if fold then None else bn) co
-         (addR (bcst b co) (if dw then P2 w kh kw d s ph pw co 0 (nth co xs zeroR)
-                            else sumR (map (fun ci => P2 w kh kw d s ph pw co ci (nth ci xs zeroR)) (seq 0 cin))))))
+         (addR (bcst b co) (if dw then P2 w kh kw d s ph pw hin win co 0 (nth co xs zeroR)
+                            else sumR (map (fun ci => P2 w kh kw d s ph pw hin win co ci (nth ci xs zeroR)) (seq 0 cin))))))
       (of2 R (fun h v => pit_conv2d_at r0 r1 radd rmul true fold dw w b bn cin kh kw (Z.of_nat d) (Z.of_nat s) (Z.of_nat ph) (Z.of_nat pw) m
-                         (fun ci => as2 R (nth ci xs zeroR)) co h v)).
+                         (fun ci => clip2 R r0 hin win (as2 R (nth ci xs zeroR))) co h v)).
 Proof.
   intros Hlen Hb i. unfold of2.
-  assert (Core : (addR (bcst b co) (if dw then P2 w kh kw d s ph pw co 0 (nth co xs zeroR)
-                            else sumR (map (fun ci => P2 w kh kw d s ph pw co ci (nth ci xs zeroR)) (seq 0 cin)))) i
+  assert (Core : (addR (bcst b co) (if dw then P2 w kh kw d s ph pw hin win co 0 (nth co xs zeroR)
+                            else sumR (map (fun ci => P2 w kh kw d s ph pw hin win co ci (nth ci xs zeroR)) (seq 0 cin)))) i
                  = conv2d_at r0 radd rmul dw w b cin kh kw (Z.of_nat d) (Z.of_nat s) (Z.of_nat ph) (Z.of_nat pw)
-                     (fun ci => as2 R (nth ci xs zeroR)) co (nth 0 i 0%Z) (nth 1 i 0%Z)).
+                     (fun ci => clip2 R r0 hin win (as2 R (nth ci xs zeroR))) co (nth 0 i 0%Z) (nth 1 i 0%Z)).
   { rewrite bias_at. unfold conv2d_at. f_equal. destruct dw; [reflexivity|]. rewrite sumR_at, map_map. reflexivity. }
   destruct fold.
   - destruct (nth co m false) eqn:E; cbn [gate].
@@ -622,13 +622,13 @@ Theorem cpit_node_spec n x al acc nd : cwf_node R r0 n al nd ->
   Forall2 eqR (pit_node SR zeroR addR x acc (node_of R r0 r1 radd rmul nd)) (cpit_node R r0 r1 radd rmul x acc nd).
 Proof.
   destruct nd as [c|src l m|src f|src mult f|a b|srcs]; cbn; try (intros; apply Forall2_eqR_refl).
-  intros [Hs Hw]. destruct l as [fold dw w b bn cin K d s tm K' sp|fold dw w b bn cin kh kw d s ph pw|fold w b bn cin]; cbn in Hw |- *.
+  intros [Hs Hw]. destruct l as [fold dw w b bn cin K d s tm K' sp|fold dw w b bn cin kh kw d s ph pw hin win|fold w b bn cin]; cbn in Hw |- *.
   - destruct Hw as ((Hlw & _) & Hb & _). rewrite Hlw. destruct dw; cbn; apply Forall2_map_seq; intros co Hco.
     + apply (pit1_spec fold true w b bn cin K d s tm m (nth src acc []) co); auto.
     + apply (pit1_spec fold false w b bn cin K d s tm m (nth src acc []) co); auto.
   - destruct Hw as ((Hlw & _) & Hb & _). rewrite Hlw. destruct dw; cbn; apply Forall2_map_seq; intros co Hco.
-    + apply (pit2_spec fold true w b bn cin kh kw d s ph pw m (nth src acc []) co); auto.
-    + apply (pit2_spec fold false w b bn cin kh kw d s ph pw m (nth src acc []) co); auto.
+    + apply (pit2_spec fold true w b bn cin kh kw d s ph pw hin win m (nth src acc []) co); auto.
+    + apply (pit2_spec fold false w b bn cin kh kw d s ph pw hin win m (nth src acc []) co); auto.
   - destruct Hw as ((Hlw & _) & Hb & _). rewrite Hlw. apply Forall2_map_seq; intros co Hco.
     apply (pit0_spec fold w b bn cin m (nth src acc []) co); auto.
 Qed.
@@ -679,13 +679,13 @@ Proof.
   apply (PC.taps_export_eq R r0 r1 radd rmul Hadd0 Hm0l Hm0r Hm1l); auto; try (apply (Hk co 0 Hco); lia).
 Qed.
 
-Lemma exp2_full_spec (fold : bool) (w : w4 R) (b : option (list R)) (bn : option (list R * list R)) cin kh kw d s ph pw (m min : list bool) (xs' : list SR) i :
+Lemma exp2_full_spec (fold : bool) (w : w4 R) (b : option (list R)) (bn : option (list R * list R)) cin kh kw d s ph pw hin win (m min : list bool) (xs' : list SR) i :
   cshape2 w (length m) cin -> cbias_ok R b (length m) -> cbn_ok R bn (length m) -> length min = cin -> i < count_true m ->
   eqR (pbn (if fold then None else bn) (nth i (kept m) 0)
-         (addR (bcst b (nth i (kept m) 0)) (sumR (map (fun j => P2 w kh kw d s ph pw (nth i (kept m) 0) (nth j (kept min) 0) (nth j xs' zeroR)) (seq 0 (length (kept min)))))))
+         (addR (bcst b (nth i (kept m) 0)) (sumR (map (fun j => P2 w kh kw d s ph pw hin win (nth i (kept m) 0) (nth j (kept min) 0) (nth j xs' zeroR)) (seq 0 (length (kept min)))))))
       (of2 R (fun h v => bn_at r0 radd rmul (if fold then None else slice_bn m bn) i
                  (conv2d_at r0 radd rmul false (export_w4 false m min w) (export_bias m b) (count_true min) kh kw (Z.of_nat d) (Z.of_nat s) (Z.of_nat ph) (Z.of_nat pw)
-                    (fun j => as2 R (nth j xs' zeroR)) i h v))).
+                    (fun j => clip2 R r0 hin win (as2 R (nth j xs' zeroR))) i h v))).
 Proof.
   intros (Hlw & Hc) Hb Hbn Hmin Hi idx. unfold of2, postbn. rewrite bnsel by assumption. f_equal.
   assert (Hi' : i < length (kept m)) by (rewrite PC.kept_length; exact Hi).
@@ -696,13 +696,13 @@ Proof.
   rewrite map_id. rewrite (PC.select_nth min (nth co w []) [] j) by (try exact Hj; rewrite Hc by exact Hco; lia). reflexivity.
 Qed.
 
-Lemma exp2_dw_spec (fold : bool) (w : w4 R) (b : option (list R)) (bn : option (list R * list R)) kh kw d s ph pw (m min : list bool) (xs' : list SR) i :
+Lemma exp2_dw_spec (fold : bool) (w : w4 R) (b : option (list R)) (bn : option (list R * list R)) kh kw d s ph pw hin win (m min : list bool) (xs' : list SR) i :
   cshape2 w (length m) 1 -> cbias_ok R b (length m) -> cbn_ok R bn (length m) -> i < count_true m ->
   eqR (pbn (if fold then None else bn) (nth i (kept m) 0)
-         (addR (bcst b (nth i (kept m) 0)) (P2 w kh kw d s ph pw (nth i (kept m) 0) 0 (nth i xs' zeroR))))
+         (addR (bcst b (nth i (kept m) 0)) (P2 w kh kw d s ph pw hin win (nth i (kept m) 0) 0 (nth i xs' zeroR))))
       (of2 R (fun h v => bn_at r0 radd rmul (if fold then None else slice_bn m bn) i
                  (conv2d_at r0 radd rmul true (export_w4 true m min w) (export_bias m b) (count_true min) kh kw (Z.of_nat d) (Z.of_nat s) (Z.of_nat ph) (Z.of_nat pw)
-                    (fun j => as2 R (nth j xs' zeroR)) i h v))).
+                    (fun j => clip2 R r0 hin win (as2 R (nth j xs' zeroR))) i h v))).
 Proof.
   intros (Hlw & Hc) Hb Hbn Hi idx. unfold of2, postbn. rewrite bnsel by assumption. f_equal.
   assert (Hi' : i < length (kept m)) by (rewrite PC.kept_length; exact Hi).
@@ -733,7 +733,7 @@ Theorem cexp_node_spec n x al acc' nd : cwf_node R r0 n al nd ->
   Forall2 eqR (exp_node SR zeroR addR x al acc' (node_of R r0 r1 radd rmul nd)) (cexp_node R r0 radd rmul x al acc' nd).
 Proof.
   destruct nd as [c|src l m|src f|src mult f|a b|srcs]; cbn; try (intros; apply Forall2_eqR_refl).
-  intros [Hs Hw]. destruct l as [fold dw w b bn cin K d s tm K' sp|fold dw w b bn cin kh kw d s ph pw|fold w b bn cin]; cbn in Hw |- *.
+  intros [Hs Hw]. destruct l as [fold dw w b bn cin K d s tm K' sp|fold dw w b bn cin kh kw d s ph pw hin win|fold w b bn cin]; cbn in Hw |- *.
   - destruct Hw as (Hsh & Hb & Hbn & Htm & Hl & Hmin). destruct dw; cbn.
     + rewrite (PC.kept_length m). apply Forall2_map_seq; intros i Hi. apply exp1_dw_spec; auto.
     + rewrite (PC.map_by_position _ (kept m)), (PC.kept_length m). apply Forall2_map_seq; intros i Hi. eapply exp1_full_spec; eauto.
@@ -796,9 +796,14 @@ Notation zeroZR := (zeroR Z 0%Z).
 Definition agree1 (n : nat) (x : list (list Z)) (l : list SZ) : Prop :=
   Forall2 (fun c s => length c = n /\ forall tt, tt < n -> s [Z.of_nat tt] = nth tt c 0%Z) x l.
 Definition agree0 (x : list Z) (l : list SZ) : Prop := Forall2 (fun v s => forall i, s i = v) x l.
+Definition agree2 (H W : nat) (x : list (list (list Z))) (l : list SZ) : Prop :=
+  Forall2 (fun c s => length c = H /\ (forall hh, hh < H -> length (nth hh c []) = W) /\
+                      forall hh vv, hh < H -> vv < W -> s [Z.of_nat hh; Z.of_nat vv] = nth vv (nth hh c []) 0%Z) x l.
+Definition agree2c (x : list (list (list Z))) (l : list SZ) : Prop := agree2 (tdimh (TS2 x)) (tdimw (TS2 x)) x l.
+
 (* same as PitNet.agree, with the common channel length made explicit *)
 Definition agreeT (t : tens) (l : list SZ) : Prop :=
-  match t with TS1 x => exists n, agree1 n x l | TS0 x => agree0 x l | _ => False end.
+  match t with TS1 x => exists n, agree1 n x l | TS0 x => agree0 x l | TS2 x => agree2c x l | TErr => False end.
 
 Lemma Forall2_map_seq2 {A B} (Rel : A -> B -> Prop) (F : nat -> A) (G : nat -> B) n :
   (forall i, i < n -> Rel (F i) (G i)) -> Forall2 Rel (map F (seq 0 n)) (map G (seq 0 n)).
@@ -810,6 +815,104 @@ Qed.
 
 Lemma agree1_first n x l : agree1 n x l -> x <> [] -> length (nth 0 x []) = n.
 Proof. intros H Hne. destruct H as [|c s x l [Hc _] _]; [congruence|exact Hc]. Qed.
+
+(* ---- 2-D maps *)
+Lemma agree2_canon H W x l : agree2 H W x l -> agree2c x l.
+Proof.
+  intro Hag. unfold agree2c. destruct Hag as [|c s x l (Hc & Hr & Hv) Hrest]; [constructor|].
+  cbn [tdimh tdimw nth]. destruct H as [|H].
+  - assert (E : c = []) by (destruct c; [reflexivity|discriminate]). subst c. cbn [length nth].
+    constructor; [repeat split; intros; lia|]. clear - Hrest. induction Hrest as [|c s x l (Hc & _ & _) _ IH]; constructor; auto.
+    repeat split; auto; intros; lia.
+  - rewrite Hc, (Hr 0) by lia. constructor; [repeat split; assumption|exact Hrest].
+Qed.
+
+Lemma sig2_read H W c (s : SZ) h v : length c = H -> (forall hh, hh < H -> length (nth hh c []) = W) ->
+  (forall hh vv, hh < H -> vv < W -> s [Z.of_nat hh; Z.of_nat vv] = nth vv (nth hh c []) 0%Z) ->
+  sig2 0%Z c h v = clip2 Z 0%Z H W (as2 Z s) h v.
+Proof.
+  intros Hc Hr Hv. unfold sig2, clip2, as2, sig1.
+  destruct (h <? 0)%Z eqn:Eh.
+  - apply Z.ltb_lt in Eh. replace (0 <=? h)%Z with false by (symmetry; apply Z.leb_gt; lia). reflexivity.
+  - apply Z.ltb_ge in Eh. replace (0 <=? h)%Z with true by (symmetry; apply Z.leb_le; lia). cbn [andb].
+    destruct (Nat.lt_ge_cases (Z.to_nat h) H) as [Hh|Hh].
+    + replace (h <? Z.of_nat H)%Z with true by (symmetry; apply Z.ltb_lt; lia). cbn [andb].
+      destruct (v <? 0)%Z eqn:Ev.
+      * apply Z.ltb_lt in Ev. replace (0 <=? v)%Z with false by (symmetry; apply Z.leb_gt; lia). reflexivity.
+      * apply Z.ltb_ge in Ev. replace (0 <=? v)%Z with true by (symmetry; apply Z.leb_le; lia). cbn [andb].
+        destruct (Nat.lt_ge_cases (Z.to_nat v) W) as [Hw|Hw].
+        -- replace (v <? Z.of_nat W)%Z with true by (symmetry; apply Z.ltb_lt; lia).
+           rewrite <- (Hv (Z.to_nat h) (Z.to_nat v) Hh Hw). rewrite !Z2Nat.id by lia. reflexivity.
+        -- replace (v <? Z.of_nat W)%Z with false by (symmetry; apply Z.ltb_ge; lia).
+           apply nth_overflow. rewrite (Hr _ Hh). exact Hw.
+    + replace (h <? Z.of_nat H)%Z with false by (symmetry; apply Z.ltb_ge; lia). cbn [andb].
+      rewrite (nth_overflow c) by lia. destruct (v <? 0)%Z; [reflexivity|]. destruct (Z.to_nat v); reflexivity.
+Qed.
+
+Lemma read2 v l ci h w' : agree2c v l ->
+  chans2 0%Z v ci h w' = clip2 Z 0%Z (tdimh (TS2 v)) (tdimw (TS2 v)) (as2 Z (nth ci l zeroZR)) h w'.
+Proof.
+  intro Hag. unfold agree2c in Hag. pose proof (Forall2_len _ _ _ Hag) as Hlen. unfold chans2.
+  destruct (Nat.lt_ge_cases ci (length v)) as [Hci|Hci].
+  - pose proof (Forall2_nth _ v l [] zeroZR Hag ci Hci) as (Hc & Hr & Hv). apply sig2_read; assumption.
+  - rewrite (nth_overflow v) by exact Hci. assert (Hl2 : length l <= ci) by (unfold SR in *; lia).
+    rewrite (nth_overflow l zeroZR Hl2). unfold sig2, clip2, as2, zeroR, sig1.
+    destruct (h <? 0)%Z; [destruct (_ && _)%bool; reflexivity|]. rewrite (nth_overflow []) by (cbn; lia).
+    destruct (w' <? 0)%Z; [destruct (_ && _)%bool; reflexivity|]. rewrite (nth_overflow []) by (cbn; lia). destruct (_ && _)%bool; reflexivity.
+Qed.
+
+Definition ext2 (F : (nat -> Z -> Z -> Z) -> nat -> Z -> Z -> Z) : Prop :=
+  forall X X' co h v, (forall ci a b, X ci a b = X' ci a b) -> F X co h v = F X' co h v.
+
+Lemma layer2_agree F C Ho Wo v l : ext2 F -> agree2c v l ->
+  agree2c (map (fun co => map (fun h => map (fun w' => F (chans2 0%Z v) co (Z.of_nat h) (Z.of_nat w')) (seq 0 Wo)) (seq 0 Ho)) (seq 0 C))
+          (map (fun co => of2 Z (fun h w' => F (fun ci => clip2 Z 0%Z (tdimh (TS2 v)) (tdimw (TS2 v)) (as2 Z (nth ci l zeroZR))) co h w')) (seq 0 C)).
+Proof.
+  intros Hext Hag. apply (agree2_canon Ho Wo). apply Forall2_map_seq2. intros co Hco.
+  split; [rewrite map_length, seq_length; reflexivity|]. split.
+  - intros hh Hh. rewrite (PC.nth_map_seq0 _ Ho hh [] Hh). rewrite map_length, seq_length. reflexivity.
+  - intros hh vv Hh Hv. rewrite (PC.nth_map_seq0 _ Ho hh [] Hh). rewrite (PC.nth_map_seq0 _ Wo vv 0%Z Hv).
+    unfold of2. cbn [nth]. apply Hext. intros ci a b. symmetry. apply read2. exact Hag.
+Qed.
+
+Lemma taps2_ext wk kh kw d (x x' : Z -> Z -> Z) u v : (forall a b, x a b = x' a b) ->
+  taps2 0%Z Z.add Z.mul wk kh kw d x u v = taps2 0%Z Z.add Z.mul wk kh kw d x' u v.
+Proof. intro H. unfold taps2. apply f_equal. apply map_ext. intro a. apply f_equal. apply map_ext. intro b. rewrite H. reflexivity. Qed.
+Lemma conv2d_ext dw w b cin kh kw d s ph pw : ext2 (fun X co h v => conv2d_at 0%Z Z.add Z.mul dw w b cin kh kw d s ph pw X co h v).
+Proof.
+  intros X X' co h v H. unfold conv2d_at. f_equal. destruct dw.
+  - apply taps2_ext. apply H.
+  - apply f_equal. apply map_ext. intro ci. apply taps2_ext. apply H.
+Qed.
+Lemma pit_conv2d_ext fold dw w b bn cin kh kw d s ph pw m :
+  ext2 (fun X co h v => pit_conv2d_at 0%Z 1%Z Z.add Z.mul true fold dw w b bn cin kh kw d s ph pw m X co h v).
+Proof.
+  intros X X' co h v H. unfold pit_conv2d_at. destruct fold.
+  - apply (conv2d_ext dw _ _ cin kh kw d s ph pw X X' co h v H).
+  - f_equal. f_equal. apply (conv2d_ext dw _ _ cin kh kw d s ph pw X X' co h v H).
+Qed.
+
+Lemma conv2_pit_agree fold dw w b cin kh kw d s ph pw m v l : agree2c v l ->
+  agree2c (pit_conv2d_l fold dw w b cin kh kw d s ph pw m v)
+          (clayer_pit Z 0%Z 1%Z Z.add Z.mul (L2 Z fold dw w b None cin kh kw d s ph pw (tdimh (TS2 v)) (tdimw (TS2 v))) m l).
+Proof.
+  intro Hag. unfold pit_conv2d_l, clayer_pit. cbv zeta.
+  apply (layer2_agree (fun X co h v0 => pit_conv2d_at 0%Z 1%Z Z.add Z.mul true fold dw w b None cin kh kw (Z.of_nat d) (Z.of_nat s) (Z.of_nat ph) (Z.of_nat pw) m X co h v0));
+    auto using pit_conv2d_ext.
+Qed.
+
+Lemma conv2_exp_agree fold dw (w : list (list (list (list Z)))) b cin kh kw d s ph pw (m a : list bool) v l : length w = length m -> agree2c v l ->
+  agree2c (Zconv2d dw (export_w4 dw m a w) (export_bias m b) (count_true a) kh kw d s ph pw v)
+          (clayer_exp Z 0%Z Z.add Z.mul (L2 Z fold dw w b None cin kh kw d s ph pw (tdimh (TS2 v)) (tdimw (TS2 v))) m a l).
+Proof.
+  intros Hlw Hag. unfold Zconv2d, conv2d, clayer_exp. cbv zeta.
+  assert (HC : length (export_w4 dw m a w) = count_true m).
+  { unfold export_w4. rewrite map_length. apply PC.select_length. exact Hlw. }
+  rewrite HC.
+  destruct fold; cbn [slice_bn option_map bn_at];
+    apply (layer2_agree (fun X co h v0 => conv2d_at 0%Z Z.add Z.mul dw (export_w4 dw m a w) (export_bias m b) (count_true a) kh kw (Z.of_nat d) (Z.of_nat s) (Z.of_nat ph) (Z.of_nat pw) X co h v0));
+    auto using conv2d_ext.
+Qed.
 
 (* ---- reading a causally padded list tensor = reading the shifted, clipped channel function *)
 Lemma sig1_nil u : sig1 0%Z [] u = 0%Z.
@@ -897,28 +1000,43 @@ Definition GoodX (acc : list xstate) (cal : list (list bool)) (cP cE : list (lis
 Definition is1 (t : tens) : Prop := match t with TS1 _ => True | _ => False end.
 Definition is0 (t : tens) : Prop := match t with TS0 _ => True | _ => False end.
 Definition same_shape (t1 t2 : tens) : Prop :=
-  match t1, t2 with TS1 x, TS1 y => length x = length y /\ tmult t1 = tmult t2 | TS0 _, TS0 _ => True | _, _ => False end.
+  match t1, t2 with
+  | TS1 x, TS1 y => length x = length y /\ tmult t1 = tmult t2
+  | TS2 x, TS2 y => tdimh t1 = tdimh t2 /\ tdimw t1 = tdimw t2
+  | TS0 _, TS0 _ => True | _, _ => False end.
 Definition cat_ok (t0 t : tens) : Prop :=
-  match t0, t with TS1 x, TS1 y => x <> [] /\ y <> [] /\ tmult t0 = tmult t | TS0 _, TS0 _ => True | _, _ => False end.
+  match t0, t with
+  | TS1 x, TS1 y => x <> [] /\ y <> [] /\ tmult t0 = tmult t
+  | TS2 x, TS2 y => x <> [] /\ y <> [] /\ tdimh t0 = tdimh t /\ tdimw t0 = tdimw t
+  | TS0 _, TS0 _ => True | _, _ => False end.
 
-(* well-formed node of the executable evaluator (node kinds covered: input, conv1d full/depthwise with its causal pad,
-   linear, relu/relu6, identity/dropout, flatten of a 1-D tensor, add, channel concat) *)
+(* well-formed node of the executable evaluator: every constructor of Conv.xnode is covered (1-D and 2-D input, Conv1d with its
+   causal pad, Conv2d, both full/depthwise, Linear, ReLU/ReLU6, identity, max pooling 1-D/2-D, stand-alone pad, flatten, add, concat) *)
+Definition is2 (t : tens) : Prop := match t with TS2 _ => True | _ => False end.
 Definition xwf_node (x : tens) (acc : list xstate) (nd : xnode) : Prop :=
   match nd with
-  | XIn => exists v n, x = TS1 v /\ Forall (fun c => length c = n) v
+  | XIn => (exists v n, x = TS1 v /\ Forall (fun c => length c = n) v) \/
+           (exists v H W, x = TS2 v /\ Forall (fun c => length c = H /\ Forall (fun r => length r = W) c) v)
   | XId src => src < length acc
   | XAct src _ => src < length acc
+  | XPad src P P' => src < length acc /\ P' = P /\ let '(p, e, _) := xget acc src in is1 p /\ is1 e
+  | XMaxPool src k => src < length acc /\ 1 <= k /\ let '(p, e, _) := xget acc src in
+      (is1 p /\ is1 e) \/ (is2 p /\ is2 e /\ tdimh e = tdimh p /\ tdimw e = tdimw p)
   | XConv1 src fold dw w b cin K d s m tm K' d' =>
       src < length acc /\ 1 <= s /\ d' = (d' / d) * d /\
       let '(p, e, a) := xget acc src in is1 p /\ is1 e /\ clayer_wf Z (L1 Z fold dw w b None cin K d s tm K' (d' / d)) m a
+  | XConv2 src fold dw w b cin kh kw d s ph pw m =>
+      src < length acc /\
+      let '(p, e, a) := xget acc src in is2 p /\ is2 e /\ tdimh e = tdimh p /\ tdimw e = tdimw p /\
+        clayer_wf Z (L2 Z fold dw w b None cin kh kw d s ph pw (tdimh p) (tdimw p)) m a
   | XLin src fold w b cin m =>
       src < length acc /\ let '(p, e, a) := xget acc src in is0 p /\ is0 e /\ clayer_wf Z (L0 Z fold w b None cin) m a
-  | XFlatten src => src < length acc /\ let '(p, e, _) := xget acc src in is1 p /\ is1 e /\ tmult e = tmult p
+  | XFlatten src => src < length acc /\ let '(p, e, _) := xget acc src in
+      (is1 p /\ is1 e /\ tmult e = tmult p) \/ (is2 p /\ is2 e /\ tdimh e = tdimh p /\ tdimw e = tdimw p)
   | XAdd i j => i < length acc /\ j < length acc /\
       let '(p1, e1, a1) := xget acc i in let '(p2, e2, a2) := xget acc j in a1 = a2 /\ same_shape p1 p2 /\ same_shape e1 e2
   | XCat srcs => srcs <> [] /\ Forall (fun j => j < length acc /\
       let '(p0, e0, _) := xget acc (hd 0 srcs) in let '(p, e, _) := xget acc j in cat_ok p0 p /\ cat_ok e0 e) srcs
-  | _ => False
   end.
 
 Lemma GoodX_get acc cal cP cE src : GoodX acc cal cP cE -> src < length acc ->
@@ -935,14 +1053,6 @@ Proof.
   rewrite Nat2Z.id. reflexivity.
 Qed.
 
-Lemma agree_map_act (f : Z -> Z) t l : agreeT t l -> agreeT (tmap (map f) (map (map f)) f t) (map (actZ f) l).
-Proof.
-  destruct t as [x|x|x|]; cbn; try tauto.
-  - intros [n H]. exists n. unfold agree1 in *. induction H as [|c s x l [Hc Hv] _ IH]; cbn; constructor; auto.
-    split; [rewrite map_length; exact Hc|]. intros tt Htt. unfold actZ. rewrite Hv by exact Htt.
-    rewrite (PC.nth_map_in f c tt 0%Z 0%Z) by lia. reflexivity.
-  - intro H. unfold agree0 in *. induction H as [|c s x l Hv _ IH]; cbn; constructor; auto. intro i. unfold actZ. rewrite Hv. reflexivity.
-Qed.
 
 Lemma linear_local w b cin (X X' : nat -> Z) co : (forall ci, ci < cin -> X ci = X' ci) ->
   linear_at 0%Z Z.add Z.mul w b cin X co = linear_at 0%Z Z.add Z.mul w b cin X' co.
@@ -1037,6 +1147,202 @@ Qed.
 Lemma agree1_mult n x l : agree1 n x l -> x <> [] -> tmult (TS1 x) = n.
 Proof. intros H Hne. cbn. apply (agree1_first n x l H Hne). Qed.
 
+
+
+(* ---- 2-D: input, activation, add, flatten *)
+Lemma agree2_in H W v : Forall (fun c => length c = H /\ Forall (fun r => length r = W) c) v -> agree2 H W v (emb (TS2 v)).
+Proof.
+  intro Hf. unfold agree2, emb. apply Forall2_map_self. eapply Forall_impl; [|exact Hf]. intros c [Hc Hr].
+  assert (Hrow : forall hh, hh < H -> length (nth hh c []) = W).
+  { intros hh Hh. rewrite Forall_forall in Hr. apply Hr. apply nth_In. lia. }
+  split; [exact Hc|]. split; [exact Hrow|]. intros hh vv Hh Hv. unfold of2, sig2, sig1. cbn [nth].
+  replace (Z.of_nat hh <? 0)%Z with false by (symmetry; apply Z.ltb_ge; lia).
+  replace (Z.of_nat vv <? 0)%Z with false by (symmetry; apply Z.ltb_ge; lia). rewrite !Nat2Z.id. reflexivity.
+Qed.
+
+Lemma nth_map_nil {A B} (g : list A -> list B) (c : list (list A)) hh : g [] = [] -> nth hh (map g c) [] = g (nth hh c []).
+Proof. intro E. rewrite <- E at 1. apply map_nth. Qed.
+
+Lemma act2_agree (f : Z -> Z) H W x l : agree2 H W x l -> agree2 H W (map (map (map f)) x) (map (actZ f) l).
+Proof.
+  intro Hag. unfold agree2 in *. induction Hag as [|c s x l (Hc & Hr & Hv) _ IH]; cbn; constructor; auto.
+  split; [rewrite map_length; exact Hc|]. split.
+  - intros hh Hh. rewrite (nth_map_nil (map f) c hh eq_refl), map_length. apply Hr. exact Hh.
+  - intros hh vv Hh Hw. unfold actZ. rewrite Hv by assumption. rewrite (nth_map_nil (map f) c hh eq_refl).
+    rewrite (PC.nth_map_in f _ vv 0%Z 0%Z) by (rewrite Hr; assumption). reflexivity.
+Qed.
+
+Lemma zip2_length {A} (f : A -> A -> A) a b : length a = length b -> length (zip2 f a b) = length a.
+Proof. revert b. induction a as [|x a IH]; intros [|y b] H; cbn in *; try lia. f_equal. apply IH. lia. Qed.
+Lemma zip2_nth {A} (f : A -> A -> A) a b i d da db : length a = length b -> i < length a ->
+  nth i (zip2 f a b) d = f (nth i a da) (nth i b db).
+Proof. revert b i. induction a as [|x a IH]; intros [|y b] i H Hi; cbn in *; try lia. destruct i; [reflexivity|]. apply IH; lia. Qed.
+
+Lemma add2_agree H W x y l1 l2 : agree2 H W x l1 -> agree2 H W y l2 ->
+  agree2 H W (zip2 (zip2 (zip2 Z.add)) x y) (zipadd SZ (addR Z Z.add) l1 l2).
+Proof.
+  intro H1. revert y l2. induction H1 as [|c s x l1 (Hc & Hr & Hv) _ IH]; intros y l2 H2; [destruct H2; constructor|].
+  destruct H2 as [|c2 s2 y l2 (Hc2 & Hr2 & Hv2) H2]; cbn; constructor; [|apply IH; exact H2].
+  assert (Hcc : length c = length c2) by lia.
+  split; [rewrite zip2_length; assumption|]. split.
+  - intros hh Hh. rewrite (zip2_nth _ c c2 hh [] [] []) by lia. rewrite zip2_length; rewrite ?Hr, ?Hr2; auto.
+  - intros hh vv Hh Hw. unfold addR. rewrite Hv, Hv2 by assumption. rewrite (zip2_nth _ c c2 hh [] [] []) by lia.
+    rewrite (zip2_nth _ _ _ vv 0%Z 0%Z 0%Z) by (rewrite ?Hr, ?Hr2; auto). reflexivity.
+Qed.
+
+Lemma seq_shiftn W n : seq W n = map (fun q => W + q) (seq 0 n).
+Proof.
+  revert W. induction n as [|n IH]; intro W; [reflexivity|]. cbn [seq map]. f_equal; [lia|].
+  rewrite (IH (Datatypes.S W)), <- seq_shift, map_map. apply map_ext. intro; lia.
+Qed.
+Lemma concat_rect (c : list (list Z)) H W : length c = H -> (forall hh, hh < H -> length (nth hh c []) = W) ->
+  concat c = map (fun q => nth (q mod W) (nth (q / W) c []) 0%Z) (seq 0 (H * W)).
+Proof.
+  revert H. induction c as [|r c IH]; intros H Hc Hr.
+  - cbn in Hc. subst H. reflexivity.
+  - destruct H as [|H]; [discriminate|]. cbn [concat]. change (Datatypes.S H * W) with (W + H * W). rewrite seq_app, map_app, Nat.add_0_l. f_equal.
+    + pose proof (Hr 0 ltac:(lia)) as Hr0. cbn in Hr0. rewrite (list_as_seq r) at 1. rewrite Hr0. apply map_ext_in. intros q Hq. apply in_seq in Hq.
+      rewrite Nat.div_small, Nat.mod_small by lia. reflexivity.
+    + rewrite (IH H) by (cbn in Hc; try lia; intros hh Hh; apply (Hr (Datatypes.S hh)); lia).
+      rewrite (seq_shiftn W (H * W)), map_map. apply map_ext_in. intros q Hq. apply in_seq in Hq.
+      assert (W <> 0) by (intro; subst W; lia).
+      replace (W + q) with (q + 1 * W) by lia. rewrite Nat.div_add, Nat.mod_add by assumption.
+      replace (q / W + 1) with (Datatypes.S (q / W)) by lia. reflexivity.
+Qed.
+
+Lemma flat2_agree H W v l : agree2 H W v l ->
+  agree0 (concat (map (@concat Z) v)) (flat_map (expand1 SZ (H * W) (fun q s => of0 Z (s [Z.of_nat (q / W); Z.of_nat (q mod W)]))) l).
+Proof.
+  intros Hag. unfold agree0. induction Hag as [|c s x l (Hc & Hr & Hv) _ IH]; cbn; [constructor|].
+  apply Forall2_app; [|exact IH]. unfold expand1. rewrite (concat_rect c H W Hc Hr).
+  apply Forall2_map_seq2. intros q Hq i. unfold of0.
+  assert (W <> 0) by (intro; subst W; lia).
+  apply Hv; [apply Nat.div_lt_upper_bound; [assumption|lia]|apply Nat.mod_upper_bound; assumption].
+Qed.
+
+(* ---- 1-D max pooling and stand-alone pad *)
+Lemma skipn_add {A} a b (l : list A) : skipn a (skipn b l) = skipn (b + a) l.
+Proof. revert l. induction b as [|b IH]; intro l; [reflexivity|]. destruct l; [destruct a; reflexivity|]. cbn. apply IH. Qed.
+Lemma chunks_nth {A} fuel k (l : list A) tt : 1 <= k -> tt < fuel -> k * (tt + 1) <= length l ->
+  nth tt (chunks fuel k l) [] = firstn k (skipn (k * tt) l).
+Proof.
+  intro Hk. revert l tt. induction fuel as [|f IH]; intros l tt Hf Hl; [lia|]. cbn [chunks].
+  assert (E : (length l <? k) = false) by (apply Nat.ltb_ge; nia). rewrite E.
+  destruct tt as [|tt]; [rewrite Nat.mul_0_r; reflexivity|]. cbn [nth].
+  rewrite IH by (try lia; rewrite skipn_length; nia). rewrite skipn_add. f_equal. f_equal. lia.
+Qed.
+Lemma chunks_length {A} fuel k (l : list A) : 1 <= k -> length l / k <= fuel -> length (chunks fuel k l) = length l / k.
+Proof.
+  intro Hk. revert l. induction fuel as [|f IH]; intros l Hf; cbn [chunks]; [cbn; lia|].
+  destruct (length l <? k) eqn:E.
+  - apply Nat.ltb_lt in E. rewrite Nat.div_small by exact E. reflexivity.
+  - apply Nat.ltb_ge in E. cbn [length].
+    assert (D : length l / k = Datatypes.S ((length l - k) / k)).
+    { replace (length l) with ((length l - k) + 1 * k) at 1 by lia. rewrite Nat.div_add by lia. lia. }
+    rewrite IH by (rewrite skipn_length; lia). rewrite skipn_length. lia.
+Qed.
+Lemma nth_firstn_lt {A} k (l : list A) j d : j < k -> nth j (firstn k l) d = nth j l d.
+Proof. revert l j. induction k as [|k IH]; intros l j H; [lia|]. destruct l; [destruct j; reflexivity|]. destruct j; [reflexivity|]. cbn. apply IH. lia. Qed.
+Lemma nth_skipn_add {A} m (l : list A) j d : nth j (skipn m l) d = nth (m + j) l d.
+Proof. revert l. induction m as [|m IH]; intro l; [reflexivity|]. destruct l; [destruct j; reflexivity|]. cbn. apply IH. Qed.
+Lemma window_as_seq k m (c : list Z) : m + k <= length c -> firstn k (skipn m c) = map (fun j => nth (m + j) c 0%Z) (seq 0 k).
+Proof.
+  intro H. apply (nth_ext _ _ 0%Z 0%Z).
+  - rewrite firstn_length, skipn_length, map_length, seq_length. lia.
+  - intros j Hj. rewrite firstn_length, skipn_length in Hj. rewrite nth_firstn_lt by lia. rewrite nth_skipn_add.
+    rewrite (PC.nth_map_seq0 _ k j 0%Z) by lia. reflexivity.
+Qed.
+
+Lemma pool1_agree k n v l : 1 <= k -> agree1 n v l -> agree1 (n / k) (map (maxpool1d k) v) (map (poolf1 k) l).
+Proof.
+  intros Hk Hag. unfold agree1 in *. induction Hag as [|c s x l [Hc Hv] _ IH]; cbn [map]; constructor; auto.
+  assert (Hdiv : length c / k <= length c) by (apply Nat.div_le_upper_bound; nia).
+  unfold maxpool1d. split; [rewrite map_length, chunks_length, Hc by (lia || assumption); reflexivity|].
+  intros tt Htt.
+  assert (Hb : k * (tt + 1) <= length c).
+  { rewrite Hc. transitivity (k * (n / k)); [apply Nat.mul_le_mono_l; lia|apply Nat.mul_div_le; lia]. }
+  rewrite (PC.nth_map_in zmax _ tt [] 0%Z) by (rewrite chunks_length, Hc by (lia || assumption); exact Htt).
+  rewrite chunks_nth by (try lia; nia). rewrite window_as_seq by lia.
+  unfold poolf1. cbn [nth]. f_equal. apply map_ext_in. intros j Hj. apply in_seq in Hj.
+  replace (Z.of_nat k * Z.of_nat tt + Z.of_nat j)%Z with (Z.of_nat (k * tt + j)) by lia. apply Hv. nia.
+Qed.
+
+(* ---- 2-D max pooling *)
+Lemma window_as_seqA {A} (d : A) k m (c : list A) : m + k <= length c -> firstn k (skipn m c) = map (fun j => nth (m + j) c d) (seq 0 k).
+Proof.
+  intro H. apply (nth_ext _ _ d d).
+  - rewrite firstn_length, skipn_length, map_length, seq_length. lia.
+  - intros j Hj. rewrite firstn_length, skipn_length in Hj. rewrite nth_firstn_lt by lia. rewrite nth_skipn_add.
+    rewrite (PC.nth_map_seq0 _ k j d) by lia. reflexivity.
+Qed.
+
+Lemma pool2_channel k H W (c : list (list Z)) (s : SZ) : 1 <= k -> length c = H -> (forall hh, hh < H -> length (nth hh c []) = W) ->
+  (forall hh vv, hh < H -> vv < W -> s [Z.of_nat hh; Z.of_nat vv] = nth vv (nth hh c []) 0%Z) ->
+  let o := maxpool2d k c in
+  length o = H / k /\ (forall hh, hh < H / k -> length (nth hh o []) = W / k) /\
+  forall hh vv, hh < H / k -> vv < W / k -> poolf2 k s [Z.of_nat hh; Z.of_nat vv] = nth vv (nth hh o []) 0%Z.
+Proof.
+  intros Hk Hc Hr Hv. cbv zeta. unfold maxpool2d, pool2d.
+  assert (HdH : length c / k <= length c) by (apply Nat.div_le_upper_bound; nia).
+  assert (HdW : W / k <= W) by (apply Nat.div_le_upper_bound; nia).
+  assert (Hlen : length (chunks (length c) k c) = H / k) by (rewrite chunks_length, Hc by (lia || assumption); reflexivity).
+  (* the hh-th group of rows and its transpose *)
+  assert (Grp : forall hh, hh < H / k ->
+            nth hh (chunks (length c) k c) [] = map (fun r => nth (k * hh + r) c []) (seq 0 k) /\ k * (hh + 1) <= H).
+  { intros hh Hh. assert (Hb : k * (hh + 1) <= H).
+    { transitivity (k * (H / k)); [apply Nat.mul_le_mono_l; lia|apply Nat.mul_div_le; lia]. }
+    split; [|exact Hb]. rewrite chunks_nth by (try lia; nia). apply window_as_seqA. lia. }
+  assert (Tr : forall hh, hh < H / k ->
+            transpose_k (map (fun r => nth (k * hh + r) c []) (seq 0 k))
+            = map (fun j => map (fun r => nth j (nth (k * hh + r) c []) 0%Z) (seq 0 k)) (seq 0 W)).
+  { intros hh Hh. destruct (Grp hh Hh) as [_ Hb]. destruct k as [|k']; [lia|]. unfold transpose_k. cbn [seq map].
+    rewrite Nat.add_0_r, Hr by nia. apply map_ext. intro j. change (nth (Datatypes.S k' * hh + 0) c [] :: map (fun r => nth (Datatypes.S k' * hh + r) c []) (seq 1 k'))
+      with (map (fun r => nth (Datatypes.S k' * hh + r) c []) (seq 0 (Datatypes.S k'))). rewrite map_map. reflexivity. }
+  split; [rewrite map_length; exact Hlen|]. split.
+  - intros hh Hh. rewrite (PC.nth_map_in _ (chunks (length c) k c) hh [] []) by lia.
+    destruct (Grp hh Hh) as [-> _]. rewrite (Tr hh Hh), !map_length, seq_length, chunks_length; rewrite ?map_length, ?seq_length; auto.
+  - intros hh vv Hh Hw. rewrite (PC.nth_map_in _ (chunks (length c) k c) hh [] []) by lia.
+    destruct (Grp hh Hh) as [-> Hb]. rewrite (Tr hh Hh). rewrite map_length, seq_length.
+    set (TT := map (fun j => map (fun r => nth j (nth (k * hh + r) c []) 0%Z) (seq 0 k)) (seq 0 W)).
+    assert (HTT : length TT = W) by (unfold TT; rewrite map_length, seq_length; reflexivity).
+    assert (Hbw : k * (vv + 1) <= W).
+    { transitivity (k * (W / k)); [apply Nat.mul_le_mono_l; lia|apply Nat.mul_div_le; lia]. }
+    rewrite (PC.nth_map_in _ (chunks W k TT) vv [] 0%Z) by (rewrite chunks_length; rewrite ?HTT; auto).
+    rewrite chunks_nth by (try lia; rewrite ?HTT; nia). rewrite (window_as_seqA [] k (k * vv) TT) by (rewrite HTT; lia).
+    unfold poolf2. cbn [nth]. f_equal. f_equal. apply map_ext_in. intros a Ha. apply in_seq in Ha.
+    unfold TT. rewrite (PC.nth_map_seq0 _ W (k * vv + a) []) by nia. apply map_ext_in. intros r Hrr. apply in_seq in Hrr.
+    replace (Z.of_nat k * Z.of_nat hh + Z.of_nat r)%Z with (Z.of_nat (k * hh + r)) by lia.
+    replace (Z.of_nat k * Z.of_nat vv + Z.of_nat a)%Z with (Z.of_nat (k * vv + a)) by lia. apply Hv; nia.
+Qed.
+
+Lemma pool2_agree k H W v l : 1 <= k -> agree2 H W v l -> agree2 (H / k) (W / k) (map (maxpool2d k) v) (map (poolf2 k) l).
+Proof.
+  intros Hk Hag. unfold agree2 in *. induction Hag as [|c s x l (Hc & Hr & Hv) _ IH]; cbn [map]; constructor; auto.
+  apply (pool2_channel k H W c s Hk Hc Hr Hv).
+Qed.
+
+Lemma pad_agree P n v l : agree1 n v l -> agree1 (P + n) (Zpad1d P v) (map (padf P) l).
+Proof.
+  intro Hag. unfold agree1, Zpad1d, pad1d in *. induction Hag as [|c s x l [Hc Hv] _ IH]; cbn [map]; constructor; auto.
+  split; [rewrite app_length, repeat_length, Hc; reflexivity|]. intros tt Htt. unfold padf, of1, padl, clip, as1. cbn [nth].
+  destruct (Nat.lt_ge_cases tt P) as [Hu|Hu].
+  - rewrite app_nth1 by (rewrite repeat_length; exact Hu). rewrite nth_repeat.
+    replace (Z.of_nat tt - Z.of_nat P <? 0)%Z with true by (symmetry; apply Z.ltb_lt; lia). reflexivity.
+  - rewrite app_nth2 by (rewrite repeat_length; exact Hu). rewrite repeat_length.
+    replace (Z.of_nat tt - Z.of_nat P <? 0)%Z with false by (symmetry; apply Z.ltb_ge; lia).
+    replace (Z.of_nat tt - Z.of_nat P)%Z with (Z.of_nat (tt - P)) by lia. apply Hv. lia.
+Qed.
+
+Lemma agree_map_act (f : Z -> Z) t l : agreeT t l -> agreeT (tmap (map f) (map (map f)) f t) (map (actZ f) l).
+Proof.
+  destruct t as [x|x|x|]; cbn; try tauto.
+  - intros [n H]. exists n. unfold agree1 in *. induction H as [|c s x l [Hc Hv] _ IH]; cbn; constructor; auto.
+    split; [rewrite map_length; exact Hc|]. intros tt Htt. unfold actZ. rewrite Hv by exact Htt.
+    rewrite (PC.nth_map_in f c tt 0%Z 0%Z) by lia. reflexivity.
+  - intro H. apply (agree2_canon (tdimh (TS2 x)) (tdimw (TS2 x))). apply act2_agree. exact H.
+  - intro H. unfold agree0 in *. induction H as [|c s x l Hv _ IH]; cbn; constructor; auto. intro i. unfold actZ. rewrite Hv. reflexivity.
+Qed.
+
 Lemma add_agree t1 t2 l1 l2 : same_shape t1 t2 -> agreeT t1 l1 -> agreeT t2 l2 -> agreeT (tadd t1 t2) (zipadd SZ (addR Z Z.add) l1 l2).
 Proof.
   destruct t1 as [x|x|x|], t2 as [y|y|y|]; cbn [same_shape agreeT tadd]; try tauto.
@@ -1045,6 +1351,8 @@ Proof.
     + assert (Hy : y <> []) by (destruct y; [discriminate|congruence]).
       pose proof (agree1_mult n (c :: x) l1 H1 ltac:(congruence)) as E1. pose proof (agree1_mult n2 y l2 H2 Hy) as E2.
       assert (E : n2 = n) by congruence. rewrite E in H2. exists n. apply zip_agree1; assumption.
+  - intros [Eh Ew] H1 H2. unfold agree2c in *. rewrite <- Eh, <- Ew in H2.
+    apply (agree2_canon (tdimh (TS2 x)) (tdimw (TS2 x))). apply add2_agree; assumption.
   - intros _ H1 H2. apply zip_agree0; assumption.
 Qed.
 
@@ -1058,6 +1366,9 @@ Proof.
     + exists n. apply Forall2_app; assumption.
     + intros [z|z|z|]; cbn; try tauto. intros (_ & Hz & Hmz). split; [destruct x; [congruence|discriminate]|]. split; [exact Hz|].
       destruct x as [|c x]; [congruence|]. cbn in *. exact Hmz.
+  - intros (Hx & Hy & Eh & Ew) H1 H2. unfold agree2c in *. rewrite <- Eh, <- Ew in H2. split.
+    + apply (agree2_canon (tdimh (TS2 x)) (tdimw (TS2 x))). apply Forall2_app; assumption.
+    + intros [z|z|z|]; cbn [cat_ok]; try tauto. intros (_ & Hz & Ehz & Ewz). destruct x as [|c x]; [congruence|]. cbn in *. repeat split; try assumption. discriminate.
   - intros _ H1 H2. split; [apply Forall2_app; assumption|]. intros [z|z|z|]; cbn; tauto.
 Qed.
 
@@ -1084,6 +1395,8 @@ Qed.
 
 Lemma is1_inv t : is1 t -> exists v, t = TS1 v.
 Proof. destruct t; cbn; try tauto. eauto. Qed.
+Lemma is2_inv t : is2 t -> exists v, t = TS2 v.
+Proof. destruct t; cbn; try tauto. eauto. Qed.
 Lemma is0_inv t : is0 t -> exists v, t = TS0 v.
 Proof. destruct t; cbn; try tauto. eauto. Qed.
 
@@ -1094,7 +1407,13 @@ Lemma xstep_sound x acc cal cP cE nd : GoodX acc cal cP cE -> xwf_node x acc nd 
 Proof.
   intros HG Hwf. destruct nd as [|src P P'|src fold dw w b cin K d s m tm K' d'|src fold dw w b cin kh kw d s ph pw m|src fold w b cin m|src six|src|src k|src|i j|srcs];
     cbn [xwf_node] in Hwf; try contradiction.
-  - (* input *) destruct Hwf as (v & n & -> & Hr). cbn. split; [reflexivity|]. split; exists n; apply (agree_in v n Hr).
+  - (* input *) destruct Hwf as [(v & n & -> & Hr)|(v & H & W & -> & Hr)].
+    + cbn. split; [reflexivity|]. split; exists n; apply (agree_in v n Hr).
+    + cbn [xstep xtr calive_node cpit_node cexp_node]. split; [reflexivity|]. split; apply (agree2_canon H W); apply agree2_in; exact Hr.
+  - (* stand-alone pad *) destruct Hwf as (Hs & -> & Hw). pose proof (GoodX_get _ _ _ _ src HG Hs) as HI.
+    cbn [xstep xtr]. destruct (xget acc src) as [[p e] a]. destruct Hw as (Hp & He). destruct HI as (Ha & Hpp & Hee).
+    destruct (is1_inv p Hp) as [v ->]. destruct (is1_inv e He) as [v' ->]. destruct Hpp as [n Hpp]. destruct Hee as [n' Hee].
+    cbn [calive_node cpit_node cexp_node]. split; [exact Ha|]. split; [exists (P + n)|exists (P + n')]; apply pad_agree; assumption.
   - (* conv1d *) destruct Hwf as (Hs & Hs1 & Hd & Hw). pose proof (GoodX_get _ _ _ _ src HG Hs) as HI.
     cbn [xstep xtr]. destruct (xget acc src) as [[p e] a]. destruct Hw as (Hp & He & Hlw). destruct HI as (Ha & Hpp & Hee).
     destruct (is1_inv p Hp) as [v ->]. destruct (is1_inv e He) as [v' ->]. destruct Hpp as [n Hpp]. destruct Hee as [n' Hee].
@@ -1102,6 +1421,12 @@ Proof.
     split; [reflexivity|]. split.
     + apply (conv1_pit_agree fold dw w b cin K d s m tm K' sp n v _ Hs1 Hpp).
     + destruct Hlw as ((Hlw & _) & _). apply (conv1_exp_agree fold dw w b cin K d s m _ tm K' sp n' v' _ Hs1 Hlw Hee).
+  - (* conv2d *) destruct Hwf as (Hs & Hw). pose proof (GoodX_get _ _ _ _ src HG Hs) as HI.
+    cbn [xstep xtr]. destruct (xget acc src) as [[p e] a]. destruct Hw as (Hp & He & Eh & Ew & Hlw). destruct HI as (Ha & Hpp & Hee).
+    destruct (is2_inv p Hp) as [v ->]. destruct (is2_inv e He) as [v' ->]. subst a. cbn [calive_node cpit_node cexp_node agreeT] in *.
+    split; [reflexivity|]. split.
+    + apply (conv2_pit_agree fold dw w b cin kh kw d s ph pw m v _ Hpp).
+    + destruct Hlw as ((Hlw & _) & _). rewrite <- Eh, <- Ew. apply (conv2_exp_agree fold dw w b cin kh kw d s ph pw m _ v' _ Hlw Hee).
   - (* linear *) destruct Hwf as (Hs & Hw). pose proof (GoodX_get _ _ _ _ src HG Hs) as HI.
     cbn [xstep xtr]. destruct (xget acc src) as [[p e] a]. destruct Hw as (Hp & He & Hlw). destruct HI as (Ha & Hpp & Hee).
     destruct (is0_inv p Hp) as [v ->]. destruct (is0_inv e He) as [v' ->]. subst a. cbn [calive_node cpit_node cexp_node].
@@ -1111,12 +1436,23 @@ Proof.
   - (* activation *) pose proof (GoodX_get _ _ _ _ src HG Hwf) as HI. cbn [xstep xtr]. destruct (xget acc src) as [[p e] a].
     destruct HI as (Ha & Hpp & Hee). cbn [calive_node cpit_node cexp_node]. split; [exact Ha|]. split; apply agree_map_act; assumption.
   - (* identity *) pose proof (GoodX_get _ _ _ _ src HG Hwf) as HI. cbn [xstep xtr calive_node cpit_node cexp_node]. rewrite !map_id. exact HI.
+  - (* max pooling *) destruct Hwf as (Hs & Hk & Hw). pose proof (GoodX_get _ _ _ _ src HG Hs) as HI.
+    cbn [xstep xtr]. destruct (xget acc src) as [[p e] a]. destruct HI as (Ha & Hpp & Hee). destruct Hw as [(Hp & He)|(Hp & He & _ & _)].
+    + destruct (is1_inv p Hp) as [v ->]. destruct (is1_inv e He) as [v' ->]. destruct Hpp as [n Hpp]. destruct Hee as [n' Hee].
+      cbn [calive_node cpit_node cexp_node tmap]. split; [exact Ha|]. split; [exists (n / k)|exists (n' / k)]; apply pool1_agree; assumption.
+    + destruct (is2_inv p Hp) as [v ->]. destruct (is2_inv e He) as [v' ->].
+      cbn [calive_node cpit_node cexp_node tmap agreeT] in *. split; [exact Ha|]. unfold agree2c in Hpp, Hee.
+      split; eapply agree2_canon; apply pool2_agree; eassumption.
   - (* flatten *) destruct Hwf as (Hs & Hw). pose proof (GoodX_get _ _ _ _ src HG Hs) as HI.
-    cbn [xstep xtr]. destruct (xget acc src) as [[p e] a]. destruct Hw as (Hp & He & Hm). destruct HI as (Ha & Hpp & Hee).
-    destruct (is1_inv p Hp) as [v ->]. destruct (is1_inv e He) as [v' ->]. destruct Hpp as [n Hpp]. destruct Hee as [n' Hee].
-    cbn [calive_node cpit_node cexp_node tflat]. split; [subst a; reflexivity|]. split; cbn [agreeT flat_idx].
-    + destruct v as [|c v]; [inversion Hpp; constructor|]. rewrite (agree1_mult n (c :: v) _ Hpp) by congruence. apply flat_agree. exact Hpp.
-    + destruct v' as [|c v']; [inversion Hee; constructor|]. rewrite <- Hm. rewrite (agree1_mult n' (c :: v') _ Hee) by congruence. apply flat_agree. exact Hee.
+    cbn [xstep xtr]. destruct (xget acc src) as [[p e] a]. destruct HI as (Ha & Hpp & Hee).
+    destruct Hw as [(Hp & He & Hm)|(Hp & He & Eh & Ew)].
+    + destruct (is1_inv p Hp) as [v ->]. destruct (is1_inv e He) as [v' ->]. destruct Hpp as [n Hpp]. destruct Hee as [n' Hee].
+      cbn [calive_node cpit_node cexp_node tflat]. split; [subst a; reflexivity|]. split; cbn [agreeT flat_idx].
+      * destruct v as [|c v]; [inversion Hpp; constructor|]. rewrite (agree1_mult n (c :: v) _ Hpp) by congruence. apply flat_agree. exact Hpp.
+      * destruct v' as [|c v']; [inversion Hee; constructor|]. rewrite <- Hm. rewrite (agree1_mult n' (c :: v') _ Hee) by congruence. apply flat_agree. exact Hee.
+    + destruct (is2_inv p Hp) as [v ->]. destruct (is2_inv e He) as [v' ->].
+      cbn [calive_node cpit_node cexp_node tflat]. split; [subst a; reflexivity|]. cbn [agreeT] in *. unfold agree2c in *. rewrite Eh, Ew in Hee.
+      split; [exact (flat2_agree _ _ v _ Hpp)|exact (flat2_agree _ _ v' _ Hee)].
   - (* add *) destruct Hwf as (Hi & Hj & Hw). pose proof (GoodX_get _ _ _ _ i HG Hi) as HIi. pose proof (GoodX_get _ _ _ _ j HG Hj) as HIj.
     cbn [xstep xtr]. destruct (xget acc i) as [[p1 e1] a1]. destruct (xget acc j) as [[p2 e2] a2]. destruct Hw as (Ha & Sp & Se).
     destruct HIi as (Ha1 & Hp1 & He1). destruct HIj as (Ha2 & Hp2 & He2). cbn [calive_node cpit_node cexp_node].
@@ -1136,14 +1472,27 @@ Proof.
   destruct nd as [|src P P'|src fold dw w b cin K d s m tm K' d'|src fold dw w b cin kh kw d s ph pw m|src fold w b cin m|src six|src|src k|src|i j|srcs];
     cbn [xwf_node] in Hwf; try contradiction.
   - reflexivity.
+  - (* pad *) destruct Hwf as (Hs & _ & _). cbn [xtr cwf_node]. split; [lia|]. split.
+    + intro i. unfold padf, of1, padl, clip, as1. destruct (_ <? _)%Z; reflexivity.
+    + intros s1 s2 H i. unfold padf, of1, padl, clip, as1. destruct (_ <? _)%Z; [reflexivity|apply H].
   - destruct Hwf as (Hs & Hs1 & Hd & Hw). pose proof (GoodX_get _ _ _ _ src HG Hs) as HI. cbn [xtr cwf_node].
     destruct (xget acc src) as [[p e] a]. destruct Hw as (_ & _ & Hlw). destruct HI as (Ha & _). subst a. split; [lia|exact Hlw].
+  - (* conv2d *) destruct Hwf as (Hs & Hw). pose proof (GoodX_get _ _ _ _ src HG Hs) as HI. cbn [xtr].
+    destruct (xget acc src) as [[p e] a]. cbn [cwf_node]. destruct Hw as (_ & _ & _ & _ & Hlw). destruct HI as (Ha & _). subst a. split; [lia|exact Hlw].
   - destruct Hwf as (Hs & Hw). pose proof (GoodX_get _ _ _ _ src HG Hs) as HI. cbn [xtr cwf_node].
     destruct (xget acc src) as [[p e] a]. destruct Hw as (_ & _ & Hlw). destruct HI as (Ha & _). subst a. split; [lia|exact Hlw].
   - cbn [xtr cwf_node]. split; [lia|]. split.
     + intro i. unfold actZ, zeroR. destruct six; reflexivity.
     + intros s1 s2 H i. unfold actZ. rewrite H. reflexivity.
   - cbn [xtr cwf_node]. split; [lia|]. split; [intro i; reflexivity|intros s1 s2 H; exact H].
+  - (* max pooling *) destruct Hwf as (Hs & Hk & Hw). cbn [xtr]. destruct (xget acc src) as [[p e] a]. destruct Hw as [(Hp & _)|(Hp & _)].
+    + destruct (is1_inv p Hp) as [v ->]. cbn [cwf_node]. split; [lia|]. split.
+      * intro i. unfold poolf1, zeroR. apply PC.zmax_zero. apply Forall_forall. intros y Hy. apply in_map_iff in Hy. destruct Hy as [j [<- _]]. reflexivity.
+      * intros s1 s2 H i. unfold poolf1. f_equal. apply map_ext. intro j. apply H.
+    + destruct (is2_inv p Hp) as [v ->]. cbn [cwf_node]. split; [lia|]. split.
+      * intro i. unfold poolf2, zeroR. apply PC.zmax_zero. apply Forall_forall. intros y Hy. apply in_concat in Hy. destruct Hy as [row [Hrow Hy]].
+        apply in_map_iff in Hrow. destruct Hrow as [a0 [<- _]]. apply in_map_iff in Hy. destruct Hy as [r [<- _]]. reflexivity.
+      * intros s1 s2 H i. unfold poolf2. f_equal. f_equal. apply map_ext. intro a0. apply map_ext. intro r. apply H.
   - destruct Hwf as (Hs & _). cbn [xtr]. destruct (xget acc src) as [[p e] a]. cbn [cwf_node]. split; [lia|]. split.
     + intros q i. reflexivity.
     + intros q s1 s2 H i. unfold of0. apply H.
